@@ -33,7 +33,7 @@ def obligations(tier):
                  unwind=5, object_bits=10, backend="cadical", encodes=["ABT_key_create", "ABT_key_free"], bounds="4 operations, 3 handles, counter below 2^32-16", symbolic="operation sequence, counter start, destructor presence"))
     import importlib as _il
     C18 = _il.import_module("props.C18")
-    o += [x for x in C18.own_obligations(tier) if x.name == "ktable_lazy_create"]
+    o += [x for x in C18.own_obligations(tier) if x.name in ("ktable_lazy_create", "ktable_grow_fail")]
     C01 = _il.import_module("props.C01")
     o += [x for x in C01.own_obligations(tier) if x.name in ("create_thread_create", "create_task_create")]   # the key table pointer of a new unit is initialised BEFORE the unit is published
     return o
